@@ -1,1 +1,467 @@
-fn main() {}
+//! Harness for C26: the real `fuel_core_sync::import::Import` (import rounds over the shared `State`
+//! and the private cache) with scripted `PeerToPeerPort`, `ConsensusPort` and `BlockImporterPort` on a
+//! paused single-thread tokio runtime.  The ports answer from the per-round script of the walk and log
+//! every call when it answers; the harness asserts nothing.  TLC judges (specs/Trace_SyncImport.tla).
+use fuel_core_services::{
+    SharedMutex,
+    StateWatcher,
+    stream::{
+        BoxStream,
+        IntoBoxStream,
+    },
+};
+use fuel_core_sync::{
+    import::{
+        Config,
+        Import,
+    },
+    ports::{
+        BlockImporterPort,
+        ConsensusPort,
+        PeerReportReason,
+        PeerToPeerPort,
+    },
+    state::State,
+};
+use fuel_core_types::{
+    blockchain::{
+        SealedBlock,
+        SealedBlockHeader,
+        block::Block,
+        consensus::{
+            Consensus,
+            poa::PoAConsensus,
+        },
+        header::{
+            BlockHeader,
+            PartialBlockHeader,
+        },
+        primitives::DaBlockHeight,
+    },
+    fuel_tx::{
+        Bytes32,
+        Transaction,
+        policies::Policies,
+    },
+    fuel_types::BlockHeight,
+    services::p2p::{
+        PeerId,
+        SourcePeer,
+        Transactions,
+    },
+};
+use h_common::*;
+use serde_json::{
+    Map,
+    Value,
+};
+use std::{
+    ops::Range,
+    sync::{
+        Arc,
+        Mutex,
+    },
+    time::Duration,
+};
+use tokio::sync::Notify;
+
+// ------------------------------------------------------------------ abstract values <-> concrete values
+
+fn peer(p: i64) -> PeerId {
+    PeerId::from(vec![p as u8; 32])
+}
+fn peer_no(p: &PeerId) -> i64 {
+    let b: &[u8] = p.as_ref();
+    b.first().copied().unwrap_or(0) as i64
+}
+/// the transactions of the block at height h ("m": the ones its headers commit to, "x": others)
+fn txs(h: u32, matching: bool) -> Vec<Transaction> {
+    let data = if matching { vec![h as u8, 0x11] } else { vec![h as u8, 0xEE, 0xEE] };
+    vec![Transaction::script(0, vec![], data, Policies::new(), vec![], vec![], vec![]).into()]
+}
+/// header of height h, variant hv (the variant is kept in the DA height)
+fn header(h: u32, hv: u64) -> SealedBlockHeader {
+    let mut p = PartialBlockHeader::default();
+    p.consensus.height = h.into();
+    p.application.da_height = hv.into();
+    let entity = p.generate(&txs(h, true), &[], Bytes32::zeroed()).unwrap_or_else(|e| die(&format!("header: {e:?}")));
+    SealedBlockHeader { entity, consensus: Consensus::PoA(PoAConsensus::default()) }
+}
+fn hv_of(h: &BlockHeader) -> i64 {
+    h.da_height().0 as i64
+}
+
+// ------------------------------------------------------------------ script + log shared with the ports
+
+#[derive(Default)]
+struct Shared {
+    log: Mutex<Vec<(String, Value)>>,
+    script: Mutex<Map<String, Value>>,
+}
+
+impl Shared {
+    fn ev(&self, name: &str, v: Value) {
+        self.log.lock().unwrap().push((name.to_string(), v));
+    }
+    /// script[table][key], e.g. hdr["3"]
+    fn entry(&self, table: &str, key: i64) -> Option<Value> {
+        self.script.lock().unwrap().get(table).and_then(|t| t.get(key.to_string())).cloned()
+    }
+}
+
+async fn delay(v: &Option<Value>) {
+    let d = v.as_ref().and_then(|v| v.get("delay")).and_then(|d| d.as_u64()).unwrap_or(0);
+    if d > 0 {
+        tokio::time::sleep(Duration::from_millis(d)).await;
+    }
+}
+
+struct P2p(Arc<Shared>);
+
+impl P2p {
+    async fn transactions(&self, range: Range<u32>, from: Option<PeerId>) -> anyhow::Result<SourcePeer<Option<Vec<Transactions>>>> {
+        let e = self.0.entry("txs", range.start as i64);
+        delay(&e).await;
+        let kind = e.as_ref().and_then(|e| e.get("kind")).and_then(|k| k.as_str()).unwrap_or("ok").to_string();
+        let p = match &from {
+            Some(p) => peer_no(p),
+            None => e.as_ref().and_then(|e| e.get("p")).and_then(|p| p.as_i64()).unwrap_or(1),
+        };
+        let tv: Vec<String> = match e.as_ref().and_then(|e| e.get("tv")).and_then(|t| t.as_array()) {
+            Some(a) => a.iter().map(|x| x.as_str().unwrap_or("m").to_string()).collect(),
+            None => range.clone().map(|_| "m".to_string()).collect(),
+        };
+        let (lo, hi) = (range.start, range.end);
+        match kind.as_str() {
+            "err" => {
+                let p = if from.is_some() { p } else { 0 };
+                self.0.ev("GetTxs", json!({"lo": lo, "hi": hi, "p": p, "resp": {"kind": "err"}}));
+                Err(anyhow::anyhow!("scripted p2p failure"))
+            }
+            "none" => {
+                self.0.ev("GetTxs", json!({"lo": lo, "hi": hi, "p": p, "resp": {"kind": "none"}}));
+                Ok(SourcePeer { peer_id: peer(p), data: None })
+            }
+            _ => {
+                self.0.ev("GetTxs", json!({"lo": lo, "hi": hi, "p": p, "resp": {"kind": "ok", "tv": tv}}));
+                let data = tv.iter().enumerate().map(|(j, v)| Transactions(txs(lo + j as u32, v == "m"))).collect();
+                Ok(SourcePeer { peer_id: peer(p), data: Some(data) })
+            }
+        }
+    }
+}
+
+#[async_trait::async_trait]
+impl PeerToPeerPort for P2p {
+    fn height_stream(&self) -> BoxStream<BlockHeight> {
+        futures::stream::pending().into_boxed()
+    }
+
+    async fn get_sealed_block_headers(&self, range: Range<u32>) -> anyhow::Result<SourcePeer<Option<Vec<SealedBlockHeader>>>> {
+        let e = self.0.entry("hdr", range.start as i64);
+        delay(&e).await;
+        let kind = e.as_ref().and_then(|e| e.get("kind")).and_then(|k| k.as_str()).unwrap_or("ok").to_string();
+        let p = e.as_ref().and_then(|e| e.get("p")).and_then(|p| p.as_i64()).unwrap_or(1);
+        let hs: Vec<(u32, u64)> = match e.as_ref().and_then(|e| e.get("hs")).and_then(|t| t.as_array()) {
+            Some(a) => a.iter().map(|x| (x["h"].as_u64().unwrap_or(0) as u32, x["hv"].as_u64().unwrap_or(1))).collect(),
+            None => range.clone().map(|h| (h, 1)).collect(),
+        };
+        let (lo, hi) = (range.start, range.end);
+        if kind == "err" {
+            self.0.ev("GetHeaders", json!({"lo": lo, "hi": hi, "p": 0, "resp": {"kind": "err"}}));
+            return Err(anyhow::anyhow!("scripted p2p failure"));
+        }
+        let hsj: Vec<Value> = hs.iter().map(|(h, hv)| json!({"h": h, "hv": hv})).collect();
+        self.0.ev("GetHeaders", json!({"lo": lo, "hi": hi, "p": p, "resp": {"kind": "ok", "hs": hsj}}));
+        // an empty answer is delivered as a missing payload every other time (both mean "no headers")
+        let data = if hs.is_empty() && lo % 2 == 0 { None } else { Some(hs.iter().map(|(h, hv)| header(*h, *hv)).collect()) };
+        Ok(SourcePeer { peer_id: peer(p), data })
+    }
+
+    async fn get_transactions(&self, range: Range<u32>) -> anyhow::Result<SourcePeer<Option<Vec<Transactions>>>> {
+        self.transactions(range, None).await
+    }
+
+    async fn get_transactions_from_peer(&self, range: SourcePeer<Range<u32>>) -> anyhow::Result<Option<Vec<Transactions>>> {
+        let SourcePeer { peer_id, data } = range;
+        self.transactions(data, Some(peer_id)).await.map(|r| r.data)
+    }
+
+    fn report_peer(&self, p: PeerId, report: PeerReportReason) -> anyhow::Result<()> {
+        self.0.ev("Report", json!({"p": peer_no(&p), "r": format!("{report:?}")}));
+        Ok(())
+    }
+}
+
+struct Cons(Arc<Shared>);
+impl ConsensusPort for Cons {
+    fn check_sealed_header(&self, header: &SealedBlockHeader) -> anyhow::Result<bool> {
+        let h = **header.entity.height() as i64;
+        let e = self.0.entry("chk", h);
+        let verdict = e.as_ref().and_then(|v| v.as_str().map(|s| s.to_string())).unwrap_or_else(|| match e.as_ref().and_then(|v| v.as_bool()) {
+            Some(false) => "false".to_string(),
+            _ => "true".to_string(),
+        });
+        self.0.ev("CheckHeader", json!({"h": h, "hv": hv_of(&header.entity), "res": verdict == "true"}));
+        match verdict.as_str() {
+            "true" => Ok(true),
+            "err" => Err(anyhow::anyhow!("scripted consensus failure")),
+            _ => Ok(false),
+        }
+    }
+
+    async fn await_da_height(&self, _da_height: &DaBlockHeight) -> anyhow::Result<()> {
+        Ok(())
+    }
+}
+
+struct Exec(Arc<Shared>);
+impl BlockImporterPort for Exec {
+    fn committed_height_stream(&self) -> BoxStream<BlockHeight> {
+        futures::stream::pending().into_boxed()
+    }
+
+    async fn execute_and_commit(&self, block: SealedBlock) -> anyhow::Result<()> {
+        let h = **block.entity.header().height() as i64;
+        let e = self.0.entry("exe", h);
+        delay(&e).await;
+        let ok = match &e {
+            Some(Value::String(s)) => s == "ok",
+            Some(v) => v.get("res").and_then(|r| r.as_str()).map(|s| s == "ok").unwrap_or(true),
+            None => true,
+        };
+        let txok = Block::try_from_executed(block.entity.header().clone(), block.entity.transactions().to_vec()).is_some();
+        self.0.ev("Execute", json!({"h": h, "hv": hv_of(block.entity.header()), "txok": txok, "res": ok}));
+        if ok { Ok(()) } else { Err(anyhow::anyhow!("scripted execution failure")) }
+    }
+}
+
+// ------------------------------------------------------------------ the driver
+
+/// Projection of the private `status` through the public API (as h-sync does).
+fn project(s: &State, max_h: u32) -> Value {
+    if let Some(r) = s.process_range() {
+        return json!({"k": "P", "lo": *r.start(), "hi": *r.end()});
+    }
+    if *s == State::new(None, None) {
+        return json!({"k": "U", "lo": 0, "hi": 0});
+    }
+    for h in 0..=max_h.saturating_add(2) {
+        if *s == State::new(Some(h), None) {
+            return json!({"k": "C", "lo": h, "hi": h});
+        }
+    }
+    json!({"k": format!("{s:?}"), "lo": -1, "hi": -1})
+}
+
+struct Node {
+    sh: Arc<Shared>,
+    state: SharedMutex<State>,
+    notify: Arc<Notify>,
+    import: Import<P2p, Exec, Cons>,
+    watcher: StateWatcher,
+    max_h: u32,
+}
+
+impl Node {
+    fn new(size: usize, buffer: usize, max_h: u32) -> Node {
+        let sh = Arc::new(Shared::default());
+        let state = SharedMutex::new(State::new(Some(0), None));
+        let notify = Arc::new(Notify::new());
+        let import = Import::new(
+            state.clone(),
+            notify.clone(),
+            Config { block_stream_buffer_size: buffer, header_batch_size: size },
+            Arc::new(P2p(sh.clone())),
+            Arc::new(Exec(sh.clone())),
+            Arc::new(Cons(sh.clone())),
+        );
+        Node { sh, state, notify, import, watcher: StateWatcher::started(), max_h }
+    }
+
+    fn flush(&self, t: &mut Trace) {
+        for (n, v) in std::mem::take(&mut *self.sh.log.lock().unwrap()) {
+            t.event(&n, v);
+        }
+    }
+
+    fn observe(&self, t: &mut Trace, h: i64) {
+        let res = self.state.apply(|s| s.observe(h as u32));
+        let st = self.state.apply(|s| project(s, self.max_h));
+        t.event("Observe", json!({"h": h, "res": res, "st": st}));
+    }
+
+    async fn round(&mut self, t: &mut Trace, script: &Map<String, Value>) {
+        *self.sh.script.lock().unwrap() = script.clone();
+        let (lo, hi) = match self.state.apply(|s| s.process_range()) {
+            Some(r) => (*r.start() as i64, *r.end() as i64),
+            None => (0, -1),
+        };
+        t.event("Begin", json!({"lo": lo, "hi": hi}));
+        // the permit makes import() return right after the round instead of waiting for the next signal
+        self.notify.notify_one();
+        let res = self.import.import(&mut self.watcher).await;
+        // let every pipeline that was started finish: the clock is paused, sleeping lets all timers fire
+        let mut quiet = 0;
+        let mut seen = self.sh.log.lock().unwrap().len();
+        while quiet < 3 {
+            tokio::time::sleep(Duration::from_secs(3600)).await;
+            for _ in 0..50 {
+                tokio::task::yield_now().await;
+            }
+            let n = self.sh.log.lock().unwrap().len();
+            if n == seen { quiet += 1 } else { quiet = 0 }
+            seen = n;
+        }
+        self.flush(t);
+        let st = self.state.apply(|s| project(s, self.max_h));
+        t.event("End", json!({"res": if res.is_ok() { "Ok" } else { "Err" }, "st": st}));
+    }
+}
+
+fn rt() -> tokio::runtime::Runtime {
+    tokio::runtime::Builder::new_current_thread()
+        .enable_time()
+        .start_paused(true)
+        .build()
+        .unwrap_or_else(|e| die(&format!("runtime: {e}")))
+}
+
+fn run(args: &Args) {
+    let walks = read_walks(args.req("walks"));
+    let size = args.num("size", 2) as usize;
+    let buffer = args.num("buffer", 3) as usize;
+    let max_h = args.num("maxh", 8) as u32;
+    let mut t = Trace::create(args.req("out"));
+    for w in walks {
+        t.reset(w.id, json!({}));
+        let rt = rt();
+        rt.block_on(async {
+            let mut n = Node::new(size, buffer, max_h);
+            for s in &w.steps {
+                match s.name() {
+                    "Observe" => n.observe(&mut t, s.int("h")),
+                    "Round" => n.round(&mut t, s).await,
+                    other => die(&format!("unknown action {other}")),
+                }
+            }
+        });
+    }
+    t.finish();
+}
+
+/// Seeded driver: random peer scripts per round (short / mis-heighted / extra headers, invalid headers,
+/// missing / mismatching / too few / extra transactions, failed requests, execution failures, delays)
+/// interleaved with observed-height updates.
+fn random(args: &Args) {
+    let nwalks = args.num("walks", 100);
+    let rounds = args.num("len", 5);
+    let size = args.num("size", 2) as usize;
+    let buffer = args.num("buffer", 3) as usize;
+    let max_h = args.num("maxh", 8) as i64;
+    let mut rng = Rng::new(env_seed() ^ 0x26_26);
+    let mut t = Trace::create(args.req("out"));
+    for wid in 0..nwalks {
+        t.reset(wid as i64, json!({}));
+        let rt = rt();
+        rt.block_on(async {
+            let mut n = Node::new(size, buffer, max_h as u32);
+            let calm = rng.chance(1, 3); // some walks have mostly honest peers so that long ranges get through
+            for _ in 0..rounds {
+                if rng.chance(4, 5) {
+                    n.observe(&mut t, rng.range(1, max_h));
+                }
+                let fault = |rng: &mut Rng| if calm { rng.chance(1, 12) } else { rng.chance(1, 3) };
+                let mut hdr = Map::new();
+                let mut tx = Map::new();
+                let mut chk = Map::new();
+                let mut exe = Map::new();
+                for lo in 1..=max_h {
+                    let nn = size as i64;
+                    let mut e = Map::new();
+                    e.insert("p".into(), json!(rng.range(1, 2)));
+                    if rng.chance(1, 3) {
+                        e.insert("delay".into(), json!(rng.range(1, 40)));
+                    }
+                    if fault(&mut rng) {
+                        match rng.below(5) {
+                            0 => {
+                                e.insert("kind".into(), json!("err"));
+                            }
+                            1 => {
+                                // short answer
+                                let c = rng.range(0, nn - 1);
+                                e.insert("hs".into(), json!((0..c).map(|j| json!({"h": lo + j, "hv": rng.range(1, 2)})).collect::<Vec<_>>()));
+                            }
+                            2 => {
+                                // one header too high
+                                let w = rng.range(0, nn - 1);
+                                e.insert("hs".into(), json!((0..nn).map(|j| json!({"h": if j >= w { lo + j + 1 } else { lo + j }, "hv": 1})).collect::<Vec<_>>()));
+                            }
+                            3 => {
+                                // extra header
+                                e.insert("hs".into(), json!((0..nn + 1).map(|j| json!({"h": lo + j, "hv": rng.range(1, 2)})).collect::<Vec<_>>()));
+                            }
+                            _ => {
+                                e.insert("hs".into(), json!((0..nn).map(|j| json!({"h": lo + j, "hv": 2})).collect::<Vec<_>>()));
+                            }
+                        }
+                    }
+                    hdr.insert(lo.to_string(), Value::Object(e));
+                    let mut e = Map::new();
+                    e.insert("p".into(), json!(rng.range(1, 2)));
+                    if rng.chance(1, 3) {
+                        e.insert("delay".into(), json!(rng.range(1, 40)));
+                    }
+                    if fault(&mut rng) {
+                        match rng.below(5) {
+                            0 => {
+                                e.insert("kind".into(), json!("err"));
+                            }
+                            1 => {
+                                e.insert("kind".into(), json!("none"));
+                            }
+                            2 => {
+                                let c = rng.range(0, nn - 1);
+                                e.insert("tv".into(), json!((0..c).map(|_| "m").collect::<Vec<_>>()));
+                            }
+                            3 => {
+                                let w = rng.range(0, nn - 1);
+                                e.insert("tv".into(), json!((0..nn).map(|j| if j == w { "x" } else { "m" }).collect::<Vec<_>>()));
+                            }
+                            _ => {
+                                e.insert("tv".into(), json!((0..nn + 1).map(|_| "m").collect::<Vec<_>>()));
+                            }
+                        }
+                    }
+                    tx.insert(lo.to_string(), Value::Object(e));
+                    if fault(&mut rng) {
+                        chk.insert(lo.to_string(), if rng.chance(1, 4) { json!("err") } else { json!(false) });
+                    }
+                    let mut e = Map::new();
+                    e.insert("res".into(), json!(if fault(&mut rng) && rng.chance(1, 2) { "err" } else { "ok" }));
+                    if rng.chance(1, 3) {
+                        e.insert("delay".into(), json!(rng.range(1, 40)));
+                    }
+                    exe.insert(lo.to_string(), Value::Object(e));
+                }
+                let mut script = Map::new();
+                script.insert("hdr".into(), Value::Object(hdr));
+                script.insert("txs".into(), Value::Object(tx));
+                script.insert("chk".into(), Value::Object(chk));
+                script.insert("exe".into(), Value::Object(exe));
+                n.round(&mut t, &script).await;
+            }
+        });
+    }
+    t.finish();
+}
+
+fn main() {
+    let args = Args::parse();
+    match args.mode.as_str() {
+        "run" => run(&args),
+        "random" => random(&args),
+        m => die(&format!("unknown mode {m}")),
+    }
+}
